@@ -463,9 +463,13 @@ pub fn run(tier: Tier) -> Report {
             enumerate(&rep, &bases, &reduced, 3, "reduced^3");
         }
         Tier::Thorough => {
-            enumerate(&rep, &bases, &full, 3, "full^3");
+            // (full^3 is 91 M programs and takes more than an hour; the length-3 space keeps every base step
+            // and drops only spellings that full^2 already distinguishes)
+            let wide = step_space(&all, &[InvForm::None, InvForm::Suffix, InvForm::Prefix], &[OmitForm::None, OmitForm::OmitFwd, OmitForm::OmitInv, OmitForm::Gt]);
+            let micro = step_space(&[0, 7, 9], &[InvForm::None, InvForm::Suffix], &[OmitForm::None, OmitForm::Lt]);
+            enumerate(&rep, &bases, &wide, 3, "wide^3");
             enumerate(&rep, &bases, &tiny, 4, "tiny^4");
-            enumerate(&rep, &bases, &tiny, 5, "tiny^5");
+            enumerate(&rep, &bases, &micro, 5, "micro^5");
         }
     }
     rep
